@@ -25,6 +25,14 @@ PadOK ==
      /\ Trim([i \in 1..lb |-> p[Len(p) + 1 - i]]) = MulInt(OfInt(len), 8)
      \* minimality: one block fewer would not fit
      /\ Len(p) - bb < len + 1 + lb
+\* RIPEMD-160 pads like MD4: 0x80, zeros, the bit length as a 64-bit little-endian integer, 64-byte blocks
+RmdPadOK ==
+  w = 32 =>
+    LET p == RmdPad(Msg) IN
+    /\ Len(p) % 64 = 0 /\ Len(p) >= len + 9 /\ Len(p) - 64 < len + 9
+    /\ SubSeq(p, 1, len) = Msg /\ p[len + 1] = 128
+    /\ \A i \in (len + 2)..(Len(p) - 8) : p[i] = 0
+    /\ Trim(SubSeq(p, Len(p) - 7, Len(p))) = MulInt(OfInt(len), 8)
 Boundary == LET r == len % BlockBytes(w) IN r \in {0, 1, BlockBytes(w) - LenBytes(w) - 2, BlockBytes(w) - LenBytes(w) - 1, BlockBytes(w) - LenBytes(w), BlockBytes(w) - 1}
 EmitReplay == PrintT("REPLAY " \o ToJson([len |-> len, w |-> w, blocks |-> NumBlocks(len, w), boundary |-> Boundary]))
 =============================================================================
